@@ -65,6 +65,19 @@ func (core *JApiCore) checkUserType(name string) *jerr.JApiError {
 	return d.BodyErrorIndex(e.Message(), e.Index())
 }
 
+// directiveBlamedBy returns the TYPE directive an error of the schema library belongs to: checking a type also checks
+// the types it refers to, and the index of such an error is relative to the body of the type it names, not of the
+// checked one.
+func (core *JApiCore) directiveBlamedBy(err error, checked string) *directive.Directive {
+	var e kit.Error
+	if stdErrors.As(err, &e) && e.IncorrectUserType() != "" {
+		if d := core.rawUserTypes.GetValue(e.IncorrectUserType()); d != nil {
+			return d
+		}
+	}
+	return core.rawUserTypes.GetValue(checked)
+}
+
 func jschemaToJAPIError(err error, d *directive.Directive) *jerr.JApiError {
 	var e kit.Error
 	if stdErrors.As(err, &e) {
